@@ -15,7 +15,7 @@ def main():
         else:
             run(f"git -C /repo archive HEAD | tar -x -C {d}", "/")
         for a in args:
-            src = f"/verif/hunt/{a}/demo_test.go.txt"
+            src = f"/verif/{os.environ.get('HUNT_DIR', 'hunt')}/{a}/demo_test.go.txt"
             body = open(src).read()
             tests = re.findall(r"func (Test\w+)\(", body)
             dst = os.path.join(d, "zz_hunt_demo_test.go")
